@@ -1135,8 +1135,10 @@ class FunctionScope(Scope):
         self.name_to_current_definition_nodes[varname] = [node]
         for composite in self.name_to_composites[varname]:
             # After we assign to a variable, reset any constraints on its
-            # members.
-            self.name_to_current_definition_nodes[composite] = []
+            # members. The marker (rather than an empty list) survives a merge
+            # with a branch that did not assign, so that the members are
+            # unconstrained after "if cond: x = y" too.
+            self.name_to_current_definition_nodes[composite] = [_UNINITIALIZED]
         self.name_to_all_definition_nodes[varname][node] = None
         self._add_composite(varname)
         return frozenset([node])
